@@ -297,6 +297,17 @@ def inline_consts(fn, ev):
     return all(is_c(a) for a in ev["args"])
 
 
+def _two_variant(atom):
+    """is the discriminant atom that of a Result / Option / ControlFlow value (an opaque call result of such a type)?"""
+    if not (isinstance(atom, tuple) and len(atom) == 2 and atom[0] == "tag"):
+        return False
+    x = atom[1]
+    while isinstance(x, tuple) and x and x[0] in ("try",):
+        x = x[1]
+    return isinstance(x, tuple) and x and x[0] == "call" and isinstance(x[-1], str) and \
+        re.match(r"^(std|core)::(result::Result|option::Option|ops::ControlFlow|ops::control_flow::ControlFlow)<", x[-1]) is not None
+
+
 _EXIT_TESTS = {}
 
 
@@ -971,6 +982,11 @@ class Engine:
                             # the discriminant of a lazily conditional Option (`checked_sub`, `get`, ..) is its condition: "not Some" is "false"
                             s2.tagfacts[atom] = 0
                             s2.pc.append((d, False, "branch"))
+                        elif len(others) == 1 and others <= {0, 1} and _two_variant(atom):
+                            # `let Ok(x) = r else { .. }`: the otherwise-arm of a two-variant enum is its other variant
+                            only = 1 - next(iter(others))
+                            s2.tagfacts[atom] = only
+                            s2.pc.append((d, only, "branch"))
                         else:
                             prev = s2.tagfacts.get(atom)
                             if isinstance(prev, tuple):
